@@ -3,7 +3,7 @@ use crate::{
     engine_c::{CBase, CCfg, SApi},
     engine_s::{Api, Base, Kind, RunCfg, Strat},
     explore::{Focus, JobCfg, Space, Stats},
-    graphs::{dags, decl_count, decl_decode, family_spec, Family, Spec},
+    graphs::{dags, decl_count, decl_decode, family_spec, topo_dag_specs, Family, Spec},
     oracle::{CFacts, Facts},
 };
 
@@ -210,6 +210,89 @@ pub fn cfgs_stream_interrupt(revs: &[bool], strats: &[(Strat, bool)]) -> Vec<Job
     v
 }
 
+/// The options must not depend on the order in which the StreamOpts builder methods are
+/// called: every non-default call order, with non-default values for all three settings.
+pub fn cfgs_opts_orders(n: usize, apis: &[Api], limits: &[Option<usize>], with_streams: bool) -> Vec<JobCfg> {
+    let mut v = vec![];
+    let combos: [(Strat, bool, bool); 3] = [(Strat::Finish, false, true), (Strat::NextN(1), true, true), (Strat::Non, true, false)];
+    for order in 1..6u8 {
+        for &api in apis.iter().filter(|a| a.with) {
+            let lims: &[Option<usize>] = if conc(&api) { limits } else { &LIM_NONE };
+            for &limit in lims {
+                for &(strat, include, interrupt) in &combos {
+                    let mut c = RunCfg::plain(api, n);
+                    c.rev = true;
+                    c.limit = limit;
+                    c.strat = strat;
+                    c.include = include;
+                    c.interrupt = interrupt;
+                    c.opts_order = order;
+                    v.push(JobCfg::S(c));
+                }
+            }
+        }
+        if with_streams {
+            let mut c = CCfg::plain(SApi::StreamWith);
+            c.rev = true;
+            c.opts_order = order;
+            v.push(JobCfg::C(c));
+            let mut c = CCfg::plain(SApi::StreamWithInterruptible);
+            c.rev = true;
+            c.strat = Strat::Finish;
+            c.interrupt = true;
+            c.opts_order = order;
+            v.push(JobCfg::C(c));
+        }
+    }
+    v
+}
+
+/// Mid-size graphs: every topologically labelled DAG on n nodes (all isomorphism classes),
+/// explored with a deviation bound from several base schedules instead of exhaustively.
+pub fn mid_spaces(tier: &str, futures: bool, streams: bool, limit: Option<usize>) -> Vec<Space> {
+    let mut v = vec![];
+    let plans: Vec<(usize, usize, bool)> = if tier == "thorough" { vec![(6, 2, true), (7, 1, false)] } else { vec![(6, 1, false)] };
+    for (n, dev, full_menu) in plans {
+        let cfgs = move |s: &Spec| {
+            let mut c = vec![];
+            if futures {
+                let fe = Api { kind: Kind::ForEach, mutable: false, with: true };
+                let tm = Api { kind: Kind::TryForEach, mutable: true, with: false };
+                let mut menu: Vec<(Api, Base, bool)> = vec![(fe, Base::Eager, false), (fe, Base::Batch, false), (fe, Base::ReverseBatch, true), (tm, Base::Batch, false)];
+                if full_menu {
+                    menu.extend([(fe, Base::Batch, true), (fe, Base::AllImmediate, false), (tm, Base::ReverseBatch, false), (tm, Base::Eager, false)]);
+                }
+                for (api, base, rev) in menu {
+                    if rev && !api.with {
+                        continue;
+                    }
+                    let mut r = RunCfg::plain(api, s.n);
+                    r.base = base;
+                    r.rev = rev;
+                    r.limit = limit;
+                    r.imm_choice = false;
+                    c.push(JobCfg::S(r));
+                }
+            }
+            if streams {
+                let mut menu = vec![(CBase::Eager, false), (CBase::HoldThenDropAll, false), (CBase::DropFirst, true)];
+                if full_menu {
+                    menu.extend([(CBase::HoldThenDropAll, true), (CBase::DropFirst, false)]);
+                }
+                for (base, rev) in menu {
+                    let mut cc = CCfg::plain(SApi::StreamWith);
+                    cc.base = base;
+                    cc.rev = rev;
+                    c.push(JobCfg::C(cc));
+                }
+            }
+            c
+        };
+        v.push(space(&format!("mid-size: all {} topologically labelled DAGs on {n} nodes (every isomorphism class), <= {dev} deviation(s) from the base schedules", 1u64 << (n * (n - 1) / 2)), topo_dag_specs(n), Some(dev), cfgs));
+    }
+    v
+}
+
 pub fn conc_with() -> Vec<Api> {
     Api::all_with().into_iter().filter(|a| a.concurrent()).collect()
 }
@@ -254,6 +337,10 @@ pub fn general_spaces(o: &GenOpts) -> Vec<Space> {
     }));
     v.push(space(&format!("one failing function + interrupt, shapes n<={}", o.n_fail.min(3)), shapes_upto(1, o.n_fail.min(3), false), None, move |s| {
         cfgs_fail_interrupt(s.n, &Api::all_with(), &[(Strat::Finish, true), (Strat::Finish, false), (Strat::NextN(1), true)])
+    }));
+    let with_streams = o.n_stream > 0;
+    v.push(space("StreamOpts builder methods called in every order (non-default values for all three settings), shapes 1<=n<=3", shapes_upto(1, 3, false), None, move |s| {
+        cfgs_opts_orders(s.n, &Api::all_with(), &[None], with_streams)
     }));
     if o.n_stream > 0 {
         let st = o.strats.clone();
@@ -305,6 +392,9 @@ pub fn c01(tier: &str) -> (Vec<Space>, Focus) {
         v.push(space("all DAGs x declarations, n=4 T=1; main configurations", decl_specs(4, 1), None, main_cfgs));
         v.push(space("n=3 T=2 with interrupt at every point / every failing subset", decl_specs(3, 2), None, stress));
     }
+    v.push(space("StreamOpts builder methods called in every order, declarations n=3 T=1", decl_specs(3, 1), None, |s| {
+        cfgs_opts_orders(s.n, &[Api { kind: Kind::ForEach, mutable: false, with: true }, Api { kind: Kind::TryForEach, mutable: true, with: true }], &[None], true)
+    }));
     let focus = Focus {
         props: vec![1],
         nontrivial_s: |_, f| f.max_inflight >= 2 && f.conflicting_pair_both_ran,
@@ -350,7 +440,7 @@ pub fn wide_spaces(tier: &str, with_streams: bool, fail_all: bool) -> Vec<Space>
     let mut v = vec![];
     let ks_dev1: Vec<usize> = if tier == "thorough" { vec![8, 9, 16, 17, 32, 33, 64, 65] } else { vec![9, 17, 33] };
     let ks_dev0: Vec<usize> = if tier == "thorough" { vec![100, 128, 129, 256, 257, 512, 1025] } else { vec![65, 129, 257] };
-    let fams = [Family::Antichain, Family::FanIn, Family::FanOut, Family::StarRev];
+    let fams = [Family::Antichain, Family::FanIn, Family::FanOut, Family::StarRev, Family::FanPair, Family::Comb];
     let fams2 = [Family::Bipartite, Family::Chain, Family::BinTree];
     let mk = |ks: &[usize], big: bool| -> Vec<Spec> {
         let mut s = vec![];
@@ -412,6 +502,7 @@ pub fn wide_spaces(tier: &str, with_streams: bool, fail_all: bool) -> Vec<Space>
 pub fn c03(tier: &str) -> (Vec<Space>, Focus) {
     let mut v = general_spaces(&gen_opts(tier));
     v.extend(wide_spaces(tier, true, false));
+    v.extend(mid_spaces(tier, true, true, None));
     let focus = Focus {
         props: vec![3],
         nontrivial_s: |_, f| f.returned && f.starts >= 2,
@@ -464,6 +555,7 @@ pub fn c04(tier: &str) -> (Vec<Space>, Focus) {
         c
     }));
     v.extend(wide_spaces(tier, false, true));
+    v.extend(mid_spaces(tier, true, false, None));
     let focus = Focus {
         props: vec![4],
         nontrivial_s: |_, f| f.returned && f.idle_points >= 1,
@@ -523,7 +615,7 @@ pub fn c05(tier: &str) -> (Vec<Space>, Focus) {
     // wide: streams only
     let ks1: Vec<usize> = if tier == "thorough" { vec![8, 9, 16, 17, 32, 33, 64, 65] } else { vec![9, 17, 33] };
     let ks0: Vec<usize> = if tier == "thorough" { vec![100, 129, 257, 1025] } else { vec![65, 129, 257] };
-    let fams = [Family::Antichain, Family::FanIn, Family::FanOut, Family::StarRev, Family::Chain, Family::BinTree];
+    let fams = [Family::Antichain, Family::FanIn, Family::FanOut, Family::StarRev, Family::Chain, Family::BinTree, Family::FanPair, Family::Comb];
     let mk = |ks: &[usize]| -> Vec<Spec> { ks.iter().flat_map(|&k| fams.iter().map(move |&f| family_spec(f, k))).collect() };
     let wc = |_: &Spec| {
         let mut c = vec![];
@@ -539,6 +631,10 @@ pub fn c05(tier: &str) -> (Vec<Space>, Focus) {
     };
     v.push(space(&format!("wide families k in {ks1:?}, <=1 deviation from 3 consumer base behaviours"), mk(&ks1), Some(1), wc));
     v.push(space(&format!("wide families k in {ks0:?}, consumer base behaviours only"), mk(&ks0), Some(0), wc));
+    v.extend(mid_spaces(tier, false, true, None));
+    v.push(space("StreamOpts builder methods called in every order, shapes 1<=n<=3", shapes_upto(1, 3, false), None, |s| {
+        cfgs_opts_orders(s.n, &[], &[None], true)
+    }));
     let focus = Focus {
         props: vec![5],
         nontrivial_s: |_, _| false,
@@ -582,6 +678,11 @@ pub fn c06(tier: &str) -> (Vec<Space>, Focus) {
     if tier == "thorough" {
         v.push(space("all DAGs x declarations n=4 T=1", decl_specs(4, 1), None, cfgs));
     }
+    v.extend(wide_spaces(tier, true, false));
+    v.extend(mid_spaces(tier, true, true, None));
+    v.push(space("StreamOpts builder methods called in every order, shapes 1<=n<=3", shapes_upto(1, 3, false), None, |s| {
+        cfgs_opts_orders(s.n, &conc_with(), &[None], true)
+    }));
     let focus = Focus {
         props: vec![6],
         nontrivial_s: |_, f| f.idle_points >= 1 && f.max_inflight >= 2,
@@ -643,6 +744,18 @@ pub fn c07(tier: &str) -> (Vec<Space>, Focus) {
         }
         c
     }));
+    v.push(space("StreamOpts builder methods called in every order with one failing function, shapes 1<=n<=3", shapes_upto(1, 3, false), None, |s| {
+        let mut out = vec![];
+        for fi in 0..s.n {
+            for mut j in cfgs_opts_orders(s.n, &try_apis(), &[None], false) {
+                if let JobCfg::S(r) = &mut j {
+                    r.fail = (0..s.n).map(|i| i == fi).collect();
+                }
+                out.push(j);
+            }
+        }
+        out
+    }));
     let focus = Focus {
         props: vec![7],
         nontrivial_s: |_, f| f.returned && f.failed_started >= 1,
@@ -669,6 +782,9 @@ pub fn c08(tier: &str) -> (Vec<Space>, Focus) {
     v.push(space("failure + interrupt, shapes n<=3", shapes_upto(1, 3, false), None, |s| cfgs_fail_interrupt(s.n, &Api::all_with(), &STRATS_FULL)));
     v.push(space("graphs with declarations n=3 T=1, interrupt at every point", decl_specs(3, 1), None, |s| {
         cfgs_interrupt(s.n, &conc_with(), &[None], &FWD, &STRATS_LIGHT)
+    }));
+    v.push(space("StreamOpts builder methods called in every order (interrupt armed), shapes 1<=n<=3", shapes_upto(1, 3, false), None, |s| {
+        cfgs_opts_orders(s.n, &Api::all_with(), &[None, Some(1)], true)
     }));
     let focus = Focus {
         props: vec![8],
@@ -733,6 +849,10 @@ pub fn c10(tier: &str) -> (Vec<Space>, Focus) {
         }
         c
     }));
+    v.push(space("StreamOpts builder methods called in every order, limits {1,2}, shapes 1<=n<=3", shapes_upto(1, 3, false), None, |s| {
+        cfgs_opts_orders(s.n, &Api::all_with(), &[Some(1), Some(2)], false)
+    }));
+    v.extend(mid_spaces(tier, true, false, Some(2)));
     let focus = Focus {
         props: vec![10],
         nontrivial_s: |c, f| match c.limit {
